@@ -20,8 +20,8 @@ from .. import flow, absint, effect_engine, units, guards
 
 MANIFEST = {
     "level": "other",
-    "technique": "static analysis over the whole package: flow-sensitive alias/effect analysis with interprocedural summaries, isinstance-guard dominance by abstract interpretation, raise/return/arity/enum path rules on the AST, literal table shape audit",
-    "text": "For every function of the package (not a sample of calls): no write can reach an argument object, a module-level table or constant; every attribute use on a parameter sits behind an isinstance guard; only the documented exception classes are raised; value-returning functions cannot fall off the end; string dispatch is exhaustive; tables have the shape their readers index. Finiteness of results and arithmetic exceptions on in-domain values - including ValueError('math domain error') when rounding pushes a mathematically in-range argument of acos/asin/sqrt out of the domain - are runtime facts and are not decided; explicit `raise` statements are reported without a reachability analysis.",
+    "technique": "static analysis over the whole package: flow-sensitive alias/effect analysis with interprocedural summaries, isinstance-guard dominance by abstract interpretation, raise/return/arity/enum path rules on the AST, unbound-name rule on the compiler's symbol tables (symtable), literal table shape audit",
+    "text": "For every function of the package (not a sample of calls): no write can reach an argument object, a module-level table or constant; every attribute use on a parameter sits behind an isinstance guard; only the documented exception classes are raised; no function reads a name that is bound nowhere (NameError); value-returning functions cannot fall off the end; string dispatch is exhaustive; tables have the shape their readers index. Finiteness of results and arithmetic exceptions on in-domain values - including ValueError('math domain error') when rounding pushes a mathematically in-range argument of acos/asin/sqrt out of the domain - are runtime facts and are not decided; explicit `raise` statements are reported without a reachability analysis.",
     "note": "Trusted: Python ast; the documented-mutator table (ALLOWED_SELF_MUTATORS) and the two documented mixed-arity functions are explicit whitelists with reasons; no eval/exec/getattr-with-computed-name in the package (checked each run). Undecided: finiteness, ZeroDivision/overflow/termination on in-domain inputs, order independence beyond absence of writes.",
 }
 
@@ -57,6 +57,7 @@ def run(repo, rep, tier):
     an = absint.analysis_for(repo)
     rep.floor("attribute uses on typed/parameter values examined", an.attr_uses, 400)
     r_raise(repo, rep)
+    r_undef(repo, rep)
     units.check_optypes(repo, rep, allf)
     # D3
     r_ret(repo, rep)
@@ -64,6 +65,66 @@ def run(repo, rep, tier):
     # D4
     r_table_shape(repo, rep)
     return "other"
+
+
+def r_undef(repo, rep):
+    """R-UNDEF: a name that is read in a function but bound nowhere - not a local, a parameter, a name of an enclosing function,
+    a module-level name, nor a builtin - raises NameError on the path that reaches it (typically a local that stayed behind when a
+    block was moved into a helper).  Scopes are resolved with the standard library's symtable (the compiler's own resolution)."""
+    import builtins
+    import symtable
+    rep.rule("R-UNDEF", "every name read in a function is bound in some enclosing scope, the module or builtins (else NameError, not TypeError/ValueError)")
+    known = set(dir(builtins)) | {"__file__", "__name__", "__doc__", "__builtins__", "__spec__", "__loader__", "__package__"}
+    # positive control: the rule must see an unbound name in a tiny example
+    ctl = symtable.symtable("def f(a):\n    return a + undefined_thing\n", "<control>", "exec")
+    if "undefined_thing" not in _unbound(ctl, known, set()):
+        raise AnalysisError("R-UNDEF self-test failed")
+    n_fn = 0
+    for mn, m in repo.modules.items():
+        try:
+            top = symtable.symtable(m.src, m.path, "exec")
+        except SyntaxError as e:
+            raise AnalysisError("symtable: %s" % e)
+        star = any(isinstance(x, ast.ImportFrom) and any(a.name == "*" for a in x.names) for x in ast.walk(m.tree))
+        modnames = set(sym.get_name() for sym in top.get_symbols() if sym.is_assigned() or sym.is_imported() or sym.is_namespace())
+        # names assigned through `global X` inside functions
+        for node in ast.walk(m.tree):
+            if isinstance(node, ast.Global):
+                modnames.update(node.names)
+        if star:
+            rep.inconcl("R-UNDEF", mn, "star import: module namespace not closed")
+            continue
+        found = _unbound(top, known, modnames)
+        n_fn += _count_functions(top)
+        for name, (scope, line) in sorted(found.items()):
+            rep.violation("R-UNDEF", "%s.%s" % (mn, scope), "undef:" + name,
+                          "name `%s` is read in %s (line %s) but bound nowhere (no local, parameter, enclosing, module-level or builtin name): NameError when reached" % (name, scope, line))
+    rep.floor("function scopes resolved for unbound names", n_fn, 300)
+    rep.ok("R-UNDEF", "all modules", "%d function scopes: every global read resolves to a module-level name or a builtin" % n_fn, sample=False)
+
+
+def _count_functions(tab):
+    return (1 if tab.get_type() == "function" else 0) + sum(_count_functions(c) for c in tab.get_children())
+
+
+def _unbound(tab, known, modnames, path=""):
+    out = {}
+    here = path + ("." if path and tab.get_type() != "module" else "") + (tab.get_name() if tab.get_type() != "module" else "")
+    if tab.get_type() in ("function", "class"):
+        for sym in tab.get_symbols():
+            nm = sym.get_name()
+            if sym.is_referenced() and sym.is_global() and not sym.is_declared_global() and nm not in modnames and nm not in known:
+                out.setdefault(nm, (here, tab.get_lineno()))
+            elif sym.is_referenced() and sym.is_declared_global() and nm not in modnames and nm not in known:
+                out.setdefault(nm, (here, tab.get_lineno()))
+    elif tab.get_type() == "module":
+        for sym in tab.get_symbols():
+            nm = sym.get_name()
+            if sym.is_referenced() and not (sym.is_assigned() or sym.is_imported() or sym.is_namespace()) and nm not in modnames and nm not in known:
+                out.setdefault(nm, ("<module>", 0))
+    for c in tab.get_children():
+        out.update({k: v for k, v in _unbound(c, known, modnames, here).items() if k not in out})
+    return out
 
 
 def dynamic_features(repo, rep):
